@@ -336,7 +336,8 @@ META = {
             "matrices/constants equal the algebraic expressions, each position is a closed orbit, and the parameter solver "
             "in _get_wyckoff_sets - recognised from its AST - provably inverts the first representative of every position; "
             "plus def-use rules for wrapping/storing. These are necessary for 'asking for the parameters succeeds and "
-            "regenerates the atoms' for every (group, letter); tolerance behaviour on noisy input is not decided.",
+            "regenerates the atoms' for every (group, letter); tolerance behaviour on noisy input is not decided."
+            " The solver statement is recognised in two shapes (guarded scan over components, or a vectorised component selection) and validated algebraically per position; wrap=False calls of the matcher need wrapped arguments; the public getter forwards its flag and the symmetry tolerance; memo coherence with reset()/arguments.",
     "note": "trusted: spglib Hall database (standard setting), fractions/numpy integer arithmetic, CPython ast; the solver is "
             "validated algebraically from its recognised index pattern, never executed.",
     "technique": "exact table obligations + algebraic validation of a recognised solver statement + def-use rules",
